@@ -312,6 +312,14 @@ D2(C, C2) ==
      \cup { Ty("union", <<x, a>>) : a \in NN(C2), x \in XC }
      \cup { Ty("tuple", <<a, x>>) : a \in NN(C2), x \in XC }
 
+(* a slice of depth 3: Optional / Union-with-None around two-level containers (the shapes in which a    *)
+(* shallow "already an instance" test differs from a full one)                                         *)
+D3opt ==
+  LET inner == Unary({"list", "tuplev"}, {Atom("int"), Atom("str")})
+                 \cup { Ty("tuple", <<Atom("int"), Atom("int")>>) }
+      two   == Unary({"list", "dict", "tuplev"}, inner)
+  IN { Opt(x) : x \in two } \cup { Ty("union", <<x, Atom("bool")>>) : x \in two }
+
 TypesUpTo(depth, A, C, C2) ==
   Atoms(A) \cup D1(A) \cup (IF depth >= 2 THEN D2(C, C2) ELSE {})
 
